@@ -52,13 +52,22 @@ class ChunkParser:
             if line is None:
                 self.chunk = raw
                 raw = b''
+            # Last chunk was already received: skip optional trailer fields,
+            # the chunked body ends with the blank line that follows them.
+            elif self.size == 0:
+                if line == b'':
+                    self.size = None
+                    self.state = chunkParserStates.COMPLETE
             # Blank line was received: the CRLF terminating previous chunk
             # data arrived in a later read.  Skip it, keep parsing the rest.
             elif line.strip() == b'':
                 pass
             else:
                 self.size = int(line, 16)
-                self.state = chunkParserStates.WAITING_FOR_DATA
+                # Last chunk carries no data, it is followed by optional
+                # trailer fields and a blank line, handled above.
+                if self.size > 0:
+                    self.state = chunkParserStates.WAITING_FOR_DATA
         elif self.state == chunkParserStates.WAITING_FOR_DATA:
             assert self.size is not None
             remaining = self.size - len(self.chunk)
